@@ -9,6 +9,7 @@ G3  per source-frequency pair: gfield = Re(bfield * s mu0 * efield) on the efiel
     accumulated over all pairs.
 Not covered: the two solves, finite-difference convergence order (bounded concrete check only).
 """
+import ast
 import itertools
 import os
 
@@ -282,6 +283,120 @@ def task_gradient_assembly(case):
     return col.pack()
 
 
+def task_rfield():
+    """Simulation._get_rfield: the adjoint source of a source-frequency pair is built from the CURRENT weighted residual --
+    one adjoint source per receiver whose current residual is not NaN, with strength conj(residual * weight / -s mu0) of that
+    receiver, discretised on the pair's grid at the pair's frequency and ADDED to a fresh field (generic receiver)."""
+    from . import c12
+    from .cxutil import generic_for_loops
+    col = ob.Collector(PROP, 'simulations.Simulation._get_rfield')
+    col.default_replay = replay
+    col.function('simulations.Simulation._get_rfield')
+
+    def run(ctx):
+        ctx.opts['getattr_hook'] = ds_hook
+        log = []
+
+        def field(it, args, kw, node):
+            st = cx.Store('rfield.field', z3.RealVal(0))
+            f = cx.Obj('Field', dict(grid=args[0] if args else kw.get('grid'), frequency=kw.get('frequency'), field=cx.NDArr(st), smu0=z3.Real('smu0'),
+                                     __strict__=True), mod=None)
+            log.append(('Field', f, list(args), dict(kw)))
+            return f
+
+        def isnan(it, f, args, kw, node):
+            b = it.ctx.fresh_bool('isnan')
+            log.append(('isnan', args[0], b))
+            return b
+
+        def get_grid(it, args, kw, node):
+            g = cx.Obj('TensorMesh', dict(__pair__=tuple(args[1:3])))
+            log.append(('get_grid', list(args[1:]), g))
+            return g
+        ctx.summaries.update({'fields.Field': field, 'simulations.Simulation.get_grid': get_grid})
+        ctx.opts.setdefault('prelude', {})['np.isnan'] = isnan
+
+        def on_elem(it, s, seq):
+            i = it.ctx.fresh_int('i_rec')
+            rec = cx.Obj('Rx', {})
+            log.append(('elem', i, rec, seq))
+            return (i, rec)
+        ctx.opts['loop_hook'] = generic_for_loops({}, on_elem=on_elem)
+        sim, ds = c12.mk_sim('misfit')
+        tx = cx.Obj('Tx', {})
+        sim.fields['survey'].fields['sources'] = {'TxED-1': tx}
+        sim.fields['survey'].fields['frequencies'] = {'f-1': z3.Real('freq_value')}
+        it_ = cx.Interp(ctx, 'simulations')
+        st = dict(sim=sim, log=log, ds=ds, tx=tx)
+        try:
+            v = it_.call(it_.getattr(sim, '_get_rfield'), ['TxED-1', 'f-1'], {})
+        except cx._Raise as e:
+            return 'raise', e.exc, st
+        except cx._Stop as e:
+            return 'stop', e.value, st
+        return 'return', v, st
+    res = cx.explore(run)
+    its = [r for r in res if r.outcome == 'stop']
+    clause(col, 'generic_receiver_explored_skipped_and_added', res, lambda r: len(its) >= 2 and not any(x.outcome == 'raise' for x in res))
+
+    def items(r):
+        return r.state['sim'].fields['survey'].fields['_data'].fields['__items__']
+
+    def skip_rule(r):
+        lg = r.state['log']
+        nan = [x for x in lg if x[0] == 'isnan']
+        el = [x for x in lg if x[0] == 'elem']
+        if len(nan) != 1 or len(el) != 1:
+            return False
+        arg = nan[0][1]
+        eo = getattr(arg, 'elem_of', None)
+        # the tested value is element i of the residual of this pair, as stored in the survey data now
+        if not (isinstance(eo, tuple) and eo[0] is items(r)['residual'].store and cx.is_sym(eo[1]) and eo[1].eq(el[0][1])):
+            return False
+        added = [e for e in r.events if e['kind'] == 'call' and str(e['name']).endswith('_adjoint_source')]
+        took_nan = any(p.eq(nan[0][2]) for p in r.pc)
+        took_not = any(p.eq(z3.Not(nan[0][2])) for p in r.pc)
+        return (took_nan and not added and not r.mutations()) or (took_not and len(added) == 1)
+    if any(len([x for x in r.state['log'] if x[0] == 'isnan']) != 1 for r in its):
+        # the skip decision is not taken by np.isnan(<element>) inside the loop: this contract cannot tell what it depends on
+        col.undecided('a_receiver_is_skipped_exactly_when_its_current_residual_is_nan',
+                      'the decision to skip a receiver is not a NaN test of an array element inside the loop; the bounded concrete check decides')
+    else:
+        clause(col, 'a_receiver_is_skipped_exactly_when_its_current_residual_is_nan', its, skip_rule)
+
+    def source_rule(r):
+        lg = r.state['log']
+        added = [e for e in r.events if e['kind'] == 'call' and str(e['name']).endswith('_adjoint_source')]
+        if not added:
+            return None
+        el = [x for x in lg if x[0] == 'elem'][0]
+        fld = [x for x in lg if x[0] == 'Field'][0][1]
+        grid = [x for x in lg if x[0] == 'get_grid'][0]
+        e = added[0]
+        st = e['kwargs'].get('strength')
+        eo = getattr(st, 'elem_of', None)
+        if not (isinstance(eo, tuple) and cx.is_sym(eo[1]) and eo[1].eq(el[1])):
+            return False
+        tags = set(eo[0].deps)
+        need = set(items(r)['residual'].store.deps) | set(items(r)['weights'].store.deps)
+        if not need <= tags:
+            return False
+        # absolute coordinates relative to THIS source; discretised on the pair's grid at the pair's frequency
+        ca = [c for c in r.events if c['kind'] == 'call' and str(c['name']).endswith('coordinates_abs')]
+        gf = [c for c in r.events if c['kind'] == 'call' and str(c['name']).endswith('get_field')]
+        if len(ca) != 1 or ca[0]['args'] != [r.state['tx']] or len(gf) != 1:
+            return False
+        ok = gf[0]['kwargs'].get('grid') is grid[2] and gf[0]['kwargs'].get('frequency') is fld.fields['frequency'] and fld.fields['grid'] is grid[2]
+        ok = ok and grid[1] == ['TxED-1', 'f-1'] and cx.is_sym(fld.fields['frequency']) and fld.fields['frequency'].eq(z3.Real('freq_value'))
+        ms = r.mutations()
+        return ok and len(ms) == 1 and ms[0]['store'] is fld.fields['field'].store and ms[0].get('how') == 'Add='
+    clause(col, 'adjoint_source_has_the_receivers_own_weighted_residual_and_is_added_on_the_pairs_grid_and_frequency', its, source_rule)
+    clause(col, 'returns_the_fresh_field', res,
+           lambda r: (r.value is [x for x in r.state['log'] if x[0] == 'Field'][0][1]) if r.outcome == 'return' else None)
+
+    return col.pack()
+
+
 def task_concrete():
     from . import c07_concrete
     col = ob.Collector(PROP, 'concrete')
@@ -295,7 +410,7 @@ def task_concrete():
 
 
 def tasks(tier):
-    t = [('contracts.c07', 'task_edges_to_vol', {}), ('contracts.c07', 'task_spec_derivative', {}), ('contracts.c07', 'task_concrete', {})]
+    t = [('contracts.c07', 'task_rfield', {}), ('contracts.c07', 'task_edges_to_vol', {}), ('contracts.c07', 'task_spec_derivative', {}), ('contracts.c07', 'task_concrete', {})]
     t += [('contracts.c07', 'task_gradient_assembly', dict(case=c)) for c in ('isotropic', 'HTI', 'VTI', 'triaxial')]
     from . import c14
     t += [('contracts.c14', 'task_map', dict(cls=c)) for c in c14.MAPS]        # chain factor (dependency closure)
